@@ -71,6 +71,7 @@ type Options struct {
 	Unwind     int
 	MaxAlloc   int
 	MinCap     int
+	GoCap      bool
 	FeasFrom   int
 	Trace      bool
 	FeasChecks bool
@@ -2201,7 +2202,9 @@ func (e *Engine) appendOp(s *SliceV, t Value, st *types.Slice, pos token.Pos) Va
 			if newCap < oldN+len(els) {
 				newCap = oldN + len(els)
 			}
-			if newCap < e.opts.MinCap {
+			if e.opts.GoCap {
+				newCap = goGrowCap(capN, oldN+len(els), int(goSizes.Sizeof(st.Elem())))
+			} else if newCap < e.opts.MinCap {
 				newCap = e.opts.MinCap
 			}
 			// arrays allocated on mutually exclusive paths share one object (at most one exists per execution)
@@ -2360,4 +2363,40 @@ func (e *Engine) copyOp(dst *SliceV, src Value, pos token.Pos) Value {
 		e.writeObj(d.Arr, []PathEl{e.pathEl(p)}, x.v, g)
 	}
 	return n
+}
+
+
+// ---- the gc runtime's slice growth (runtime.growslice / nextslicecap / roundupsize, go1.2x, amd64) ------------------
+var goSizes = types.SizesFor("gc", "amd64")
+
+var goSizeClasses = []int{8, 16, 24, 32, 48, 64, 80, 96, 112, 128, 144, 160, 176, 192, 208, 224, 240, 256, 288, 320, 352, 384, 416, 448, 480, 512, 576, 640, 704, 768, 896, 1024, 1152, 1280, 1408, 1536, 1792, 2048, 2304, 2688, 3072, 3200, 3456, 4096, 4864, 5376, 6144, 6528, 6784, 6912, 8192, 9472, 9728, 10240, 10880, 12288, 13568, 14336, 16384, 18432, 19072, 20480, 21760, 24576, 27264, 28672, 32768}
+
+func goGrowCap(oldCap, newLen, elemSize int) int {
+	newcap := oldCap
+	doublecap := newcap + newcap
+	if newLen > doublecap {
+		newcap = newLen
+	} else {
+		const threshold = 256
+		if oldCap < threshold {
+			newcap = doublecap
+		} else {
+			for newcap < newLen {
+				newcap += (newcap + 3*threshold) >> 2
+			}
+		}
+	}
+	if elemSize <= 0 {
+		return newcap
+	}
+	mem := newcap * elemSize
+	for _, c := range goSizeClasses {
+		if mem <= c {
+			return c / elemSize
+		}
+	}
+	// large objects: rounded up to the page size
+	const page = 8192
+	mem = (mem + page - 1) / page * page
+	return mem / elemSize
 }
